@@ -167,3 +167,23 @@ def c14(run):
     q = run.tier == "quick"
     _parser(run, "Parser.minus.cfg" if q else "Parser.thorough.cfg",
             [] if q else ["Parser.mc4minus.cfg"], "Parser state graph (alphabet with '-')")
+
+
+# ------------------------------------------------------------------------------------------- C16
+@check("C16", rule="one case = an ordered pair of abstract values (flat / nested sequences over ordered digits, "
+                    "scalar anchor positions MIN..MAX, Option of these, range pairs); each case runs through every "
+                    "eq_*/cmp_* instantiation and macro form that accepts it (~70 variants per flat pair); "
+                    "non-trivial = the two values differ in length or content")
+def c16(run):
+    q = run.tier == "quick"
+    out = vec("C16-Cmp.ndjson")
+    run.mc("MC_Cmp", "Cmp.quick.cfg" if q else "Cmp.thorough.cfg", env={"OUT": out},
+           need_actions=("Start", "Step"), heap="8g", timeout=3000)
+    run.sample_file(out)
+    run.replay([out], "Cmp vectors")
+    run.record_and_validate("Cmp", "Trace_Cmp", "Trace_Cmp.cfg", n_files=4 if q else 16, n_events=5000 if q else 20000)
+    run.assumptions += [BOUNDED, STD_GUARD,
+                        "values of each type are obtained from abstract digits / anchor positions by a strictly "
+                        "increasing map (the comparison code can only observe the order)",
+                        "transitivity / totality are TLC ASSUMEs on the reference order; the real results are checked "
+                        "for agreement with it on all pairs, for antisymmetry and for Equal <=> eq"]
